@@ -242,6 +242,42 @@ def rule_enc_as(rep, rid, statement):
         rule_enc(r2, strs[tag], caps[tag])
 
 
+def rule_empty(rep, S):
+    """empty() is `size() == 0` in one of its spellings; a test of the first character against NUL is not: a counted string may start with a NUL"""
+    from .. import norm
+    d = S.d
+    for fn in S.fns:
+        if fn.get("name") != "empty" or ir.params(fn):
+            continue
+        rets = [x for x in ir.walk_expr(ir.body(fn)) if x.get("kind") == "ReturnStmt" and ir.ekids(x)]
+        lab = "%s::empty()" % S.tag
+        if len(rets) != 1:
+            rep.inconclusive("C01.len", lab, "empty() is size() == 0", where=d.where(fn), detail="%d return statements" % len(rets))
+            continue
+        t = norm.deep_uncast(ir.sx(ir.ekids(rets[0])[0]))
+        txt = ir.show(t)
+        is_size = lambda x: x[0] == "call" and len(x) == 2 and ((x[1][0] == "mem" and x[1][2] in ("size", "length")) or x[1] in (("ref", "size"), ("ref", "length")))
+        is_pos = lambda x, names: x[0] == "call" and len(x) == 2 and ((x[1][0] == "mem" and x[1][2] in names) or (x[1][0] == "ref" and x[1][1] in names))
+        ok = False
+        if t[0] == "bin" and t[1] == "==":
+            a, b = norm.deep_uncast(t[2]), norm.deep_uncast(t[3])
+            ok = (is_size(a) and norm.int_of(b) == 0) or (is_size(b) and norm.int_of(a) == 0) or \
+                (is_pos(a, ("begin", "cbegin")) and is_pos(b, ("end", "cend"))) or (is_pos(b, ("begin", "cbegin")) and is_pos(a, ("end", "cend")))
+        elif t[0] == "un" and t[1] == "!" and is_size(norm.deep_uncast(t[2])):
+            ok = True
+        reads_buffer = any(isinstance(x, tuple) and x and ((x[0] == "index") or (x[0] == "un" and x[1] == "*") or
+                                                             (x[0] == "call" and len(x) >= 2 and isinstance(x[1], tuple) and x[1][0] in ("mem", "ref") and
+                                                              str(x[1][-1]) in ("front", "data", "c_str", "operator[]", "at"))) for x in ir.subterms(t))
+        if ok:
+            rep.holds("C01.len", lab, "empty() is size() == 0", where=d.where(fn), detail=txt[:60])
+        elif reads_buffer:
+            rep.violates("C01.len", lab, "empty() is size() == 0", where=d.where(fn),
+                         detail="returns `%s`: it looks at a character of the buffer instead of the length - a counted string whose first character is NUL "
+                                "(constructed from (\"\\0ab\", 3), insert(0, 1, '\\0'), resize(n, '\\0')) has size() > 0 and reports empty" % txt[:60])
+        else:
+            rep.inconclusive("C01.len", lab, "empty() is size() == 0", where=d.where(fn), detail="returns `%s`" % txt[:60])
+
+
 def rule_len(rep, S, R="C01.len"):
     d = S.d
     for fn in S.fns:
@@ -1006,6 +1042,7 @@ def run(tier):
         rule_extent(rep, S, 16, "read", "C01.reads")
     rule_defarg(rep, d)
     rule_selflen(rep, d, strs["P16"])
+    rule_empty(rep, strs["P16"])
     rule_order(rep, d, strs["P16"])
     rule_alias(rep)
     return rep
